@@ -40,9 +40,9 @@ UNITS = [
       note="the signing-key computation of whitelist_sign for all (online, summed) 32-byte keys"),
     U("C16.sign_gate", ["C16"], "harness/C16/sign.c", "h_wl_sign",
       replace=["secp256k1_whitelist_compute_keys_and_message", "secp256k1_whitelist_compute_tweaked_privkey", "nonce_function_rfc6979", "secp256k1_borromean_sign"],
-      assumed=["nonce_function_rfc6979", "secp256k1_borromean_sign"], bounded="signing path: n_keys<=3, <=8 nonce-function calls",
-      unwindset=["secp256k1_whitelist_sign.0:10", "secp256k1_whitelist_sign.1:10"],
-      functions=["secp256k1_whitelist_sign"], timeout=1800, min_obl=30, unwind=34,
+      assumed=["nonce_function_rfc6979", "secp256k1_borromean_sign"], bounded="signing path: n_keys<=1, <=4 nonce-function calls",
+      unwindset=["secp256k1_whitelist_sign.0:3", "secp256k1_whitelist_sign.1:6"],
+      functions=["secp256k1_whitelist_sign"], timeout=1800, min_obl=30, unwind=34, tier="thorough",
       note="argument gates for every n_keys and index; signing path bounded (the nonce retry loop has a `continue`: no CBMC loop contract); the signing-key gate itself is C16.sign_key_gate"),
     U("C16.verify_nonempty", ["C16"], "harness/C16/nonempty.c", "h_wl_nonempty", replace=VER_REPL, assumed=["secp256k1_borromean_verify"],
       functions=["secp256k1_whitelist_verify"], timeout=600, min_obl=10, unwind=34, replay=True,
